@@ -42,7 +42,8 @@ def register(reg):
           ("C06", "dumped_top_keys_sorted", "keys_ascending(dumped())"),
           ("C06", "dumped_info_keys_sorted", "keys_ascending(dumped()['info'])"),
           ("C06", "dumped_piece_layers_sorted", "implies('piece layers' in dumped(), keys_ascending(dumped()['piece layers']))"),
-          (["C06", "C18"], "file_is_encoding_of_dumped", "fs_data(self.outfile) == benc(dumped())"),
+          (["C06", "C18"], "file_is_encoding_of_dumped", "fs_isfile(self.outfile) and fs_data(self.outfile) == benc(dumped())"),
+          (["C18"], "returns_the_path_written", "result[0] == self.outfile"),
       ],
       raises={"BaseException": {}},
       notes="write() hands pyben.dump exactly the dictionary sort_meta returned; the only path written is self.outfile")
